@@ -126,8 +126,13 @@ func (mdb *MassDBV1) prePlotWork(cache *MemCache) error {
 		return hmA.makeAvailableMemory(cache, uint64(hmA.volume-startPoint)*uint64(recordSize))
 	}
 	var calcWindowSize = func() pocutil.PoCValue {
-		rem := (cache.Len() / recordSize) & 1
-		return pocutil.PoCValue(cache.Len()/recordSize - rem)
+		n := cache.Len() / recordSize
+		// keep windows even-sized, but never empty: resuming from an odd checkpoint
+		// leaves a single last record, and a zero-sized window would never advance
+		if rem := n & 1; n > rem {
+			n -= rem
+		}
+		return pocutil.PoCValue(n)
 	}
 	for startPoint := checkpoint; startPoint < hmA.volume; {
 		if err := ensureCacheMemory(startPoint); err != nil {
